@@ -36,7 +36,7 @@ Definition kind_class (k : tok_kind) : tcl :=
       | KWhile => CKw KwWhile | KEndWhile => CKw KwEndWhile
       | KRepeat => CKw KwRepeat | KUntil => CKw KwUntil | KEndRepeat => CKw KwEndRepeat
       | KExit => CKw KwExit | KReturn => CKw KwReturn
-      | KEndFunctionBlock | KEndProgram | KEndFunction => CKw KwEndPou
+      | KEndFunctionBlock | KEndProgram | KEndFunction | KFunctionBlock | KProgram => CKw KwEndPou      (* the keywords at the boundaries of units *)
       | KBool => CBoolT
       | KHash => CHash
       | KPeriod => CDot
@@ -164,6 +164,77 @@ Definition parse_fbd_text (t : text) : outcome2 :=
   match errs with
   | [] => parse_fbd_tokens toks
   | _ => O2Rejected
+  end.
+
+(* ---- a library of function blocks and programs:  _ library_element_declaration ** _ _  and the end of the text ---- *)
+Inductive ukind := UFb | UProgram.
+Record unit_ := mkUnit { u_kind : ukind; u_name : text; u_decls : list ditem; u_body : list stmt }.
+Inductive ures := UOk (u : unit_) (rest : list token) | UFail | UScope | UFuel.
+
+(* function_block_declaration / program_declaration; ts starts at the keyword.  In a program the further alternatives of a
+   declaration block (VAR_ACCESS, located variables) need tokens outside the model's scope. *)
+Definition parse_unit (fuel : nat) (ts : list token) : ures :=
+  match ts with
+  | kw :: r =>
+      match (if kind_eqb (t_kind kw) KFunctionBlock then Some (UFb, KEndFunctionBlock)
+             else if kind_eqb (t_kind kw) KProgram then Some (UProgram, KEndProgram) else None) with
+      | None => UFail
+      | Some (uk, endk) =>
+          match st_skip r with
+          | nm :: r1 =>
+              if kind_eqb (t_kind nm) KIdentifier then
+                match blocks token tok_class t_text tok_num ty_name fuel [] (st_skip r1) with
+                | DOk (ds, rb) =>
+                    match body token tok_class t_text tok_num op_level fuel (st_skip rb) with
+                    | Ok (l, r3) =>
+                        match st_skip r3 with
+                        | e :: r4 => if kind_eqb (t_kind e) endk then UOk (mkUnit uk (t_text nm) ds l) r4 else UFail
+                        | [] => UFail
+                        end
+                    | Fail => UFail
+                    | Panic => UFail
+                    | OutOfFuel => UFuel
+                    end
+                | DFail => UFail
+                | DScope => UScope
+                | DFuel => UFuel
+                end
+              else UFail
+          | [] => UFail
+          end
+      end
+  | [] => UFail
+  end.
+
+Inductive lres := LOk (us : list unit_) (rest : list token) | LScope | LFuel.
+Fixpoint units (fuel n : nat) (acc : list unit_) (ts : list token) : lres :=
+  match n with
+  | O => LFuel
+  | S n' =>
+      match parse_unit fuel (st_skip ts) with
+      | UOk u r => units fuel n' (acc ++ [u]) r
+      | UFail => LOk acc ts
+      | UScope => LScope
+      | UFuel => LFuel
+      end
+  end.
+
+Inductive outcome3 := O3Parsed (us : list unit_) | O3Rejected | O3Fuel | O3Scope.
+Definition parse_lib_tokens (toks : list token) : outcome3 :=
+  if in_scope token tok_class toks then
+    let fuel := (3 * List.length toks + 8)%nat in
+    match units fuel fuel [] toks with
+    | LOk us r => match st_skip r with [] => O3Parsed us | _ => O3Rejected end
+    | LScope => O3Scope
+    | LFuel => O3Fuel
+    end
+  else O3Scope.
+
+Definition parse_lib_text (t : text) : outcome3 :=
+  let '(toks, errs) := tokenize_program t in
+  match errs with
+  | [] => parse_lib_tokens toks
+  | _ => O3Rejected
   end.
 
 Definition parse_fb_text (t : text) : outcome :=
